@@ -46,13 +46,14 @@ _ref = st.integers(0, 11)
 
 
 @st.composite
-def _stmt_list(draw, depth, budget, flags, in_loop=False):
-    n = draw(st.integers(1, max(1, min(6, budget))))
+def _stmt_list(draw, depth, budget, flags, in_loop=False, min_stmts=1):
+    n = draw(st.integers(min_stmts, max(min_stmts, min(6, budget))))
     out = []
     for _ in range(n):
         kinds = ["copy"] * flags["w_copy"] + ["gen"] * flags["w_gen"] + ["view"] * flags["w_view"] + ["alloc"] * flags["w_alloc"]
         kinds += ["use"] * flags["w_use"] + ["op"] * flags["w_op"] + ["call"] * flags["w_call"] + ["bar"] * flags["w_bar"]
         kinds += ["dealloc"] * flags["w_dealloc"]
+        kinds += ["scoped"] * flags.get("w_scoped", 0)
         if depth > 0:
             kinds += ["for"] * flags["w_for"]
             kinds += ["if"] * flags["w_if"] + ["region"] * flags["w_region"]
@@ -68,6 +69,38 @@ def _stmt_list(draw, depth, budget, flags, in_loop=False):
             out.append(["view", draw(st.sampled_from([0, 0, 0, 1])), draw(_ref), off])
         elif k == "alloc":
             out.append(["alloc"])
+        elif k == "scoped":
+            # alloc; a few data-mover / compute ops on the fresh buffer (ref -1 = newest 16-element value); dealloc
+            out.append(["alloc"])
+            inner = []
+            for _ in range(draw(st.integers(1, 3))):
+                other = draw(_ref)
+                shape = draw(st.integers(0, 3))
+                if draw(st.integers(0, 2)) == 0:
+                    # access the fresh buffer through a view only
+                    inner.append(["view", 0, -1, ["c", draw(st.sampled_from([0, 4, 8]))]])
+                    if shape == 0:
+                        inner.append(["copy", 1, other, -1])
+                    elif shape == 1:
+                        inner.append(["copy", 1, -1, other])
+                    elif shape == 2:
+                        inner.append(["gen", draw(st.sampled_from(flags["flavors"])), 1, [other], -1])
+                    else:
+                        inner.append(["gen", draw(st.sampled_from(flags["flavors"])), 1, [-1], other])
+                elif shape == 0:
+                    inner.append(["copy", 0, other, -1])
+                elif shape == 1:
+                    inner.append(["copy", 0, -1, other])
+                elif shape == 2:
+                    inner.append(["gen", draw(st.sampled_from(flags["flavors"])), 0, [other], -1])
+                else:
+                    inner.append(["gen", draw(st.sampled_from(flags["flavors"])), 0, [-1], other])
+            if depth > 0 and draw(st.integers(0, 3)) == 0:
+                inner = [["for", inner]]
+            out.extend(inner)
+            if draw(st.integers(0, 4)) == 0:
+                out.append(["bar"])
+            out.append(["dealloc", -1])
         elif k == "use":
             out.append(["use", draw(st.integers(0, 1)), draw(_ref)])
         elif k == "op":
@@ -105,8 +138,8 @@ def count_loops(stmts):
 
 C14_FLAGS = dict(w_copy=4, w_gen=4, w_view=2, w_alloc=1, w_use=1, w_op=2, w_call=1, w_bar=1, w_dealloc=0, w_for=3, w_if=3,
                  w_region=1, flavors=[0, 0, 1, 2, 3])
-C13_FLAGS = dict(w_copy=6, w_gen=6, w_view=3, w_alloc=1, w_use=1, w_op=0, w_call=0, w_bar=1, w_dealloc=1, w_for=5, w_if=0,
-                 w_region=0, flavors=[0, 0, 1, 2, 3])
+C13_FLAGS = dict(w_copy=6, w_gen=6, w_view=3, w_alloc=2, w_use=1, w_op=0, w_call=0, w_bar=1, w_dealloc=2, w_for=8, w_if=0,
+                 w_region=0, w_scoped=2, flavors=[0, 0, 1, 2, 3])
 
 
 @st.composite
@@ -140,7 +173,7 @@ def program_c14(draw, tier="quick"):
 def program_c13(draw, tier="quick"):
     depth = 3
     budget = 8 if tier == "quick" else 12
-    body = draw(_stmt_list(depth, budget, C13_FLAGS))
+    body = draw(_stmt_list(depth, budget, C13_FLAGS, min_stmts=3))
     nloops = count_loops(body)
     return dict(nb_cores=draw(st.sampled_from([2, 3, 3])), nargs=draw(st.integers(1, 2)), blocks=[body], terms=[], ret=0,
                 inputs=draw(_inputs(nloops, 2, [0, 1, 2, 2, 3, 3])))
